@@ -121,6 +121,42 @@ PROPS["C12"] = {
     "extraction_drops": ["log::trace!/warn! statements (N4)", "derive(Debug, Clone) on HeapObject", "#[cfg(test)] module"],
 }
 
+PROPS["C11"] = {
+    "verus_units": ["scheduler"],
+    "kani_units": [{
+        "unit": "sched", "subst_quick": {}, "subst_thorough": {},
+        "bound_note": "real std BinaryHeap with 3 tasks (times fully symbolic)",
+        "harnesses": [
+            {"name": "f64_to_u64_cast_truncates", "bound": False, "fn": "`f64 as u64` in SimpleScheduler::schedule_at / trampoline", "doc": "every f64 bit pattern: floor for 0<=x<2^64, 0 for negative/NaN, saturating"},
+            {"name": "task_cmp_by_when_only", "bound": False, "fn": "scheduler.rs Task::{cmp,partial_cmp}", "doc": "full domain"},
+            {"name": "binaryheap_model_validation", "bound": True, "fn": "std BinaryHeap<Reverse<Task>> vs the trusted Verus model", "doc": "peek = min when; pop removes exactly the peeked element"},
+        ],
+    }],
+    "floor": {"obligations": 18},
+    "trusted_base": [
+        "model of std BinaryHeap<T> (multiset + designated top that is a maximum of Ord; peek shows it, pop removes exactly it, push inserts), std Reverse (flips the order), mpsc::Receiver::try_recv (single consumer, no concurrent sender: pops the head or reports empty; modelled with &mut self) -- heap model validated bounded by Kani on the real BinaryHeap",
+        "derive(PartialOrd, Ord) on Time(pub u64) compares the field (OrdSpecImpl for Time is assumed)",
+        "rule X3 (abstract `H: ExecClosure` handle whose execute_closure appends to a ghost log) for SchedulerAudioWorker::on_sample; rule X2 (the locked `SharedState` becomes a `&mut` parameter) for drain_due_tasks / set_current_time / the _mimium_schedule_at trampoline closure",
+        "N3: `f64 as u64` / `f64 as i64` are uninterpreted in the Verus unit (their truncation semantics is the full-domain Kani harness f64_to_u64_cast_truncates)",
+        "vstd Multiset / Seq axioms",
+    ],
+    "assumptions": [
+        "driver protocol: on_sample is called once per sample with consecutive sample indices, before dsp of that sample (read off run_dsp in driver.rs / engine.rs, not proved)",
+        "single-threaded use of the task channel during on_sample (the VM runs the audio worker and the scheduling closures on one thread)",
+    ],
+    "not_covered": [
+        "closure retention across the FFI (resolve_closure, close_upvalues_by_idx, WASM closure memory): whether the closure handle still denotes the scheduled closure when it runs",
+        "WasmSchedulerHandle::on_sample / WasmDspRuntime::run_dsp composition (set time, drain, execute each in order) and SimpleScheduler::schedule_at plumbing through the VM FFI",
+        "the panic direction 'a past-time task always panics' (only 'no panic when all received tasks are in the future' is proved)",
+    ],
+    "explanation": "C11: Task order is by `when` only (proved); pop_task returns a due task of minimal time and removes exactly it; SchedulerAudioWorker::on_sample and WasmSchedulerHandle::drain_due_tasks execute/return exactly the due multiset in non-decreasing time and keep exactly the rest; the schedule trampoline inserts exactly one task and refuses non-future times; lemma_sample_step lifts the per-sample contract to 'each task runs exactly once, at the sample equal to its time' by induction on the sample index; VM and WASM satisfy the same per-sample contract.",
+    "samples": [
+        {"obligation": "SchedulerAudioWorker::on_sample::ensures", "clause": "exists ex: log' == log + closures_of(ex) && sorted_by_when(ex) && count(ex) == due part of (heap + inbox) && heap' == later part"},
+        {"obligation": "lemma_sample_step", "clause": "none_overdue(p, now) && sample_step(..) ==> executed == tasks with when == now, none_overdue(next, now+1)"},
+    ],
+    "extraction_drops": ["rule X3 / X2 as listed; log::error! statements; SimpleScheduler, gen_interfaces, Default impls, into_wasm_plugin_fn_map's Arc/HashMap plumbing around the trampoline closure"],
+}
+
 
 def is_trusted_cut(unit, cut):
     """cuts whose body is external_body (contract assumed) — no canary expected"""
